@@ -25,9 +25,9 @@ def q(tier, quick, thorough):
 
 
 def recipe(c: Check):
-    c.build(["Properties/C12.vo", "Corr/C12.vo"], harness=["c12"])
+    c.build(["Properties/C12.vo", "Corr/C12.vo"], harness=["c12"], units=["c12sync"])
     c.obligations("C12")
-    st = c.run_driver("sessions", q(c.tier, 132, 1100), shards=q(c.tier, 8, 16), timeout=1500)
+    st = c.run_driver("sessions", q(c.tier, 140, 1200), shards=q(c.tier, 8, 16), timeout=1500)
     c.run_driver("runids", q(c.tier, 1500, 10000), coq=False, timeout=600)
     cnt = c.cov.get("coq_counters", {}).get("sessions", {})
     if st and not c.broken:
